@@ -91,6 +91,11 @@ func TestC04AfterFailedRun(t *testing.T) {
 func TestC05AfterFailedRun(t *testing.T) {
 	rec := NewRecorder("C05", "C05AfterFailedRun", "rapid histories of two runs in one process (a run that fails part-way after replies were recorded and timed, then a generated scenario with other delays over the same TTL range), the second judged like a run on its own: every RTT is arrival minus send of the same probe of this run; non-trivial as in C05")
 	RunProp(t, rec, func(rt *rapid.T) *historyCase {
-		return genHistory(rt, GenOpts{Dups: true, MaxSpan: 30, BigDelay: true})
+		c := genHistory(rt, GenOpts{Dups: true, MaxSpan: 30, BigDelay: true})
+		// as in TestC05: the serial engine does not listen between windows
+		if c.Main.Serial() && c.Main.Delay() > c.Main.Poll() {
+			clampOwnWindow(c.Main)
+		}
+		return c
 	}, checkHistory(checkC05))
 }
